@@ -266,6 +266,15 @@ def check_li(env, n, tier):
         if env.mode == "native":
             fid = tomo.fidelity(real_np.array(ref, dtype=complex))
             env.check_true(f"{name}.fidelity[n={n};{label}]", abs(fid - 1) < 1e-6, note="fidelity one against the reference", model=dict(fidelity=float(fid)))
+        # the same tomography object used again after its circuit was extended in place: the result describes the NEW process
+        from lightworks import qubit as _q
+        base.add(_q.S(), 0)
+        base.add(_q.H(), 0)
+        V2 = gate_matrix_of(env, base, n)
+        choi2 = tomo.process()
+        ref2 = choi_from_unitary(V2)
+        env.check_all_zero(f"{name}.second-run[n={n};{label}]", [((a, b), choi2[a, b] - ref2[a, b]) for a in range(d) for b in range(d)],
+                           note="a second process() on the same object after the circuit was extended returns the Choi matrix of the extended circuit (no stale experiment data)")
 
 
 def check_gate_fidelity(env, n, tier):
@@ -295,6 +304,13 @@ def check_gate_fidelity(env, n, tier):
                                    note="average gate fidelity (|tr U^dag V|^2 + d)/(d(d+1)); one when the target equals V", model=dict(got=str(got), want=str(complex(want))))
                     continue
             env.check_zero(f"{name}.formula[n={n};{label};target={tl}]", got - want, note="average gate fidelity (|tr U^dag V|^2 + d)/(d(d+1)); one when the target equals V")
+        # same object after the circuit was extended in place: fidelity one against the NEW gate matrix
+        from lightworks import qubit as _q
+        base.add(_q.S(), 0)
+        V2 = gate_matrix_of(env, base, n)
+        got2 = gf.process(V2)
+        env.check_true(f"{name}.second-run[n={n};{label}]", abs(complex(got2) - 1) < 1e-9,
+                       note="a second process() on the same object after the circuit was extended measures the extended circuit (fidelity one against its own matrix)", model=dict(got=str(got2)))
 
 
 def mle_family(n):
